@@ -1395,9 +1395,36 @@ def r20_4_poisson(ctx, rule: str = 'R20.4') -> List[Ob]:
         elif isinstance(st, ast.Expr):
             continue
         else:
+            bound_here = []
             for n in ast.walk(st):
                 if isinstance(n, ast.Name) and isinstance(n.ctx, ast.Store):
                     env.unset(n.id)
+                    bound_here.append(n.id)
+            # a name that is kept up to date - every definition of it in the function is the same expression E, and inside this
+            # statement it is re-computed behind the last change of what E reads - equals E of the current values afterwards
+            # (the running `elapsed = np.cumsum(intervals)` next to the growing `intervals`)
+            for v in dict.fromkeys(bound_here):
+                defs_v = [n for n in ast.walk(f.node) if isinstance(n, ast.Assign) and len(n.targets) == 1
+                          and isinstance(n.targets[0], ast.Name) and n.targets[0].id == v]
+                all_st = sum(1 for n in ast.walk(f.node) if isinstance(n, ast.Name) and n.id == v and isinstance(n.ctx, ast.Store))
+                if len(defs_v) < 2 or all_st != len(defs_v) or len({ast.dump(d.value) for d in defs_v}) != 1:
+                    continue
+                reads = {x.id for x in ast.walk(defs_v[0].value) if isinstance(x, ast.Name)}
+                inner = [d for d in defs_v if any(d is m for m in ast.walk(st))]
+                okk = bool(inner)
+                for blk_owner in ast.walk(st):
+                    for fld in ('body', 'orelse'):
+                        blk = getattr(blk_owner, fld, None)
+                        if isinstance(blk, list) and any(d in blk for d in inner):
+                            pos = max(i_ for i_, s_ in enumerate(blk) if s_ in inner)
+                            for s_ in blk[pos + 1:]:
+                                if any(isinstance(x, ast.Name) and x.id in reads and isinstance(x.ctx, ast.Store) for x in ast.walk(s_)):
+                                    okk = False
+                if okk and v not in reads:
+                    try:
+                        env.set(v, C.canon_expr(defs_v[0].value, env))
+                    except C.CanonError:
+                        pass
     if ret is None or not (isinstance(ret.value, ast.Call) and C.dotted(ret.value.func) == 'SpikeTrain' and len(ret.value.args) >= 2):
         return [inconclusive(rule, t, f.loc(), 'the function ends in `return SpikeTrain(<spikes>, <interval>)`', construct=fn)]
     # the two edges: the names the interval is unpacked into
